@@ -81,3 +81,35 @@ func VP_C09_failwrite_dynbt() {
 	vp.Assert(v.MarshalNBT(w) != nil, "write failure is reported")
 	vp.Cover("end")
 }
+
+// dynbt.Value on structured values (arrays of several multi-byte elements)
+// under chunks of 1/2/3/5 bytes and one short read anywhere.
+func VP_C09_dynbt_arrays() {
+	var tag byte
+	var payload []byte
+	switch vp.Choice(3) {
+	case 0:
+		tag, payload = 11, append([]byte{0, 0, 0, 3}, vp.Bytes(12)...)
+	case 1:
+		tag, payload = 12, append([]byte{0, 0, 0, 2}, vp.Bytes(16)...)
+	default:
+		tag, payload = 9, append([]byte{4, 0, 0, 0, 2}, vp.Bytes(16)...)
+	}
+	stream := append(append([]byte{}, payload...), 0x31)
+	var v1 Value
+	r1 := &vpByteReader{b: stream, fail: -1}
+	vp.Assert(v1.UnmarshalNBT(tag, r1) == nil && r1.pos == len(payload), "contiguous read consumes exactly the value")
+	r2 := &vpByteReader{b: stream, fail: -1}
+	if k := vp.Choice(5); k == 4 {
+		r2.once = true
+	} else {
+		r2.chunk = []int{1, 2, 3, 5}[k]
+	}
+	var v2 Value
+	vp.Assert(v2.UnmarshalNBT(tag, r2) == nil, "same error-ness under fragmentation")
+	vp.Assert(r2.pos == len(payload), "same residual stream under fragmentation")
+	var w1, w2 vpBuf
+	vp.Assert(v1.MarshalNBT(&w1) == nil && v2.MarshalNBT(&w2) == nil, "re-encodes")
+	vp.Assert(string(w1.b) == string(w2.b) && string(w1.b) == string(payload), "same value under fragmentation")
+	vp.Cover("end")
+}
